@@ -87,6 +87,19 @@ def fam_fail(seed, i):
     if fault == "stopped_panic":
         scripts += [[eff("ctx_stop")]]
         w["stop"] = 3
+    # a bystander actor a2 that calls / sends to a1 from inside its handlers: it must see nothing but errors
+    if rng.random() < 0.45:
+        c0 = rng.choice(names)
+        main.append({"op": "spawn", "a": "a2", "nh": "r_a2", "cfg": {"cap": rng.choice([-1, 1]), "pscr": [], "sscr": [[]]}, "entry": "builder"})
+        src = "h0" if any(o.get("h") == "h0" and o["op"] == "drop" for o in main) is False and not owning else None
+        # the peer handle: made from the root handle before it is dropped / given away
+        ix = next(k for k, o in enumerate(main) if o["op"] == "spawn" and o["a"] == "a1") + 1
+        main.insert(ix, {"op": "to_addr" if owning else "clone", "h": "h0", "nh": "p_a1", "to": "main"})
+        main.append({"op": "give", "h": "p_a1", "to": "a2"})
+        main.append({"op": "give", "h": "r_a2", "to": c0})
+        handles.setdefault(c0, {})["r_a2"] = "addr"
+        scripts = scripts + [[eff("call_peer", 0, "p_a1")], [eff("call_peer", 0, "p_a1")], [eff("send_peer", 0, "p_a1")], [Y, eff("call_peer", 0, "p_a1")]]
+        sc["clients"]["main"] = main
     cnt = [0]
     for c in names:
         sc["clients"][c] = Prog(rng, c, handles.get(c, {}), w, scripts, cnt).run(rng.randint(1, 7))
